@@ -12,7 +12,8 @@ open NitroVerif.Gql
 inductive LTok where
   | p (s : String)
   | name (s : String)
-  | num (s : String)
+  | int (s : String)
+  | float (s : String)
   | str (v : String)
   deriving DecidableEq, Repr, Inhabited
 
@@ -51,5 +52,168 @@ def depth : GType → Nat
   | .named _ _ => 0
   | .list t _ => depth t + 1
   | .nonNull t => depth t + 1
+
+/-! ### Value and Directive (spec §2.9 `Value`, §2.10, §2.6 `Arguments`, §2.13 `Directive : @ Name Arguments?`) -/
+
+mutual
+def valueToks : Value → List LTok
+  | .var n _ => [.p "$", .name n]
+  | .int s _ => [.int s]
+  | .float s _ => [.float s]
+  | .str s _ => [.str s]
+  | .bool b _ => [.name (if b then "true" else "false")]
+  | .null _ => [.name "null"]
+  | .enum n _ => [.name n]
+  | .list vs _ => .p "[" :: (valueListToks vs ++ [.p "]"])
+  | .obj fs _ => .p "{" :: (fieldToks fs ++ [.p "}"])
+def valueListToks : List Value → List LTok
+  | [] => []
+  | v :: vs => valueToks v ++ valueListToks vs
+/-- `Name : Value` entries (object fields, arguments) -/
+def fieldToks : List (Name × Pos × Value) → List LTok
+  | [] => []
+  | (k, _, v) :: r => .name k :: .p ":" :: (valueToks v ++ fieldToks r)
+end
+
+def argsToks : List Arg → List LTok
+  | [] => []
+  | a :: as => .p "(" :: (fieldToks (a :: as) ++ [.p ")"])
+
+def directiveToks (d : Directive) : List LTok := .p "@" :: .name d.name :: argsToks d.args
+
+/-- a name token read as a value: `true`, `false`, `null` are keywords, everything else is an enum value -/
+def nameValue (n : String) : Value :=
+  if n = "true" then .bool true Pos.none
+  else if n = "false" then .bool false Pos.none
+  else if n = "null" then .null Pos.none
+  else .enum n Pos.none
+
+mutual
+/-- parse one `Value` from the front of the token list -/
+def parseValue : Nat → List LTok → Option (Value × List LTok)
+  | 0, _ => none
+  | _, [] => none
+  | f + 1, tok :: r =>
+    match tok with
+    | .int s => some (.int s Pos.none, r)
+    | .float s => some (.float s Pos.none, r)
+    | .str s => some (.str s Pos.none, r)
+    | .name n => some (nameValue n, r)
+    | .p s =>
+      if s = "$" then
+        match r with
+        | .name n :: r' => some (.var n Pos.none, r')
+        | _ => none
+      else if s = "[" then (parseValues f r).map fun x => (.list x.1 Pos.none, x.2)
+      else if s = "{" then (parseFields "}" f r).map fun x => (.obj x.1 Pos.none, x.2)
+      else none
+/-- values up to the closing `]` -/
+def parseValues : Nat → List LTok → Option (List Value × List LTok)
+  | 0, _ => none
+  | _, [] => none
+  | f + 1, tok :: r =>
+    if tok = .p "]" then some ([], r)
+    else match parseValue f (tok :: r) with
+      | some (v, r') => (parseValues f r').map fun x => (v :: x.1, x.2)
+      | none => none
+/-- `Name : Value` entries up to the closing punctuator `close` -/
+def parseFields (close : String) : Nat → List LTok → Option (List (Name × Pos × Value) × List LTok)
+  | 0, _ => none
+  | _, [] => none
+  | f + 1, tok :: r =>
+    if tok = .p close then some ([], r)
+    else match tok, r with
+      | .name k, colon :: r1 =>
+        if colon = .p ":" then
+          match parseValue f r1 with
+          | some (v, r2) => (parseFields close f r2).map fun x => ((k, Pos.none, v) :: x.1, x.2)
+          | none => none
+        else none
+      | _, _ => none
+end
+
+/-- `Directive : @ Name Arguments?` with `Arguments : ( Argument+ )` -/
+def parseDirective (f : Nat) : List LTok → Option (Directive × List LTok)
+  | at_ :: .name n :: r =>
+    if at_ = .p "@" then
+      match r with
+      | [] => some ({ name := n }, [])
+      | tok :: r' =>
+        if tok = .p "(" then
+          match parseFields ")" f r' with
+          | some (a :: as, r'') => some ({ name := n, args := a :: as }, r'')
+          | _ => none
+        else some ({ name := n }, tok :: r')
+    else none
+  | _ => none
+
+/-- what the grammar can produce: an enum value is not one of the keywords `true`, `false`, `null` -/
+def okEnum (n : String) : Bool := n != "true" && n != "false" && n != "null"
+
+mutual
+def wfValue : Value → Bool
+  | .enum n _ => okEnum n
+  | .list vs _ => wfValueList vs
+  | .obj fs _ => wfFields fs
+  | _ => true
+def wfValueList : List Value → Bool
+  | [] => true
+  | v :: vs => wfValue v && wfValueList vs
+def wfFields : List (Name × Pos × Value) → Bool
+  | [] => true
+  | (_, _, v) :: r => wfValue v && wfFields r
+end
+
+/-- a directive without positions -/
+def eraseDirective (d : Directive) : Directive := { name := d.name, args := Value.erasePosFields d.args }
+
+/-! ### selections, variable definitions, operations, fragments (spec §2.4–§2.8, §2.10) — canonical token streams -/
+
+def dirsToks : List Directive → List LTok
+  | [] => []
+  | d :: ds => directiveToks d ++ dirsToks ds
+
+mutual
+def selectionToks : Selection → List LTok
+  | .field al n _ as ds ss =>
+    (match al with
+     | some (a, _) => [.name a, .p ":"]
+     | none => []) ++ .name n :: (argsToks as ++ dirsToks ds ++
+    (match ss with
+     | some xs => .p "{" :: (selectionsToks xs ++ [.p "}"])
+     | none => []))
+  | .spread n _ ds _ => .p "..." :: .name n :: dirsToks ds
+  | .inline c ds ss _ =>
+    .p "..." :: ((match c with
+     | some (t, _) => [.name "on", .name t]
+     | none => []) ++ dirsToks ds ++ .p "{" :: (selectionsToks ss ++ [.p "}"]))
+def selectionsToks : List Selection → List LTok
+  | [] => []
+  | s :: ss => selectionToks s ++ selectionsToks ss
+end
+
+def selectionSetToks (ss : List Selection) : List LTok := .p "{" :: (selectionsToks ss ++ [.p "}"])
+
+def varDefToks (v : VarDef) : List LTok :=
+  .p "$" :: .name v.name :: .p ":" :: (typeToks v.ty ++
+    (match v.default with
+     | some d => .p "=" :: valueToks d
+     | none => []) ++ dirsToks v.dirs)
+
+def varDefListToks : List VarDef → List LTok
+  | [] => []
+  | v :: vs => varDefToks v ++ varDefListToks vs
+
+def varDefsToks : List VarDef → List LTok
+  | [] => []
+  | v :: vs => .p "(" :: (varDefListToks (v :: vs) ++ [.p ")"])
+
+def operationToks (o : OperationDef) : List LTok :=
+  .name o.kind.asStr :: ((match o.name with
+    | some (n, _) => [.name n]
+    | none => []) ++ varDefsToks o.vars ++ dirsToks o.dirs ++ selectionSetToks o.sel)
+
+def fragmentToks (f : FragmentDef) : List LTok :=
+  .name "fragment" :: .name f.name :: .name "on" :: .name f.cond :: (dirsToks f.dirs ++ selectionSetToks f.sel)
 
 end NitroVerif.GqlTokens
